@@ -123,6 +123,7 @@ pub fn run(
         let h = std::thread::Builder::new()
             .stack_size(64 << 20)
             .spawn(move || {
+                crate::crash::set_worker(t);
                 let r = shard(engine, prop, seed.wrapping_mul(1000003).wrapping_add(t as u64), per, max_len, stop, slot.clone());
                 slot.done.store(true, Ordering::SeqCst);
                 r
@@ -239,6 +240,7 @@ fn shard(
         let st = std::cell::RefCell::new(&mut stats);
         let res = runner.run(&strat, |bytes| {
             slot.beat.fetch_add(1, Ordering::Relaxed);
+            crate::crash::publish(&bytes);
             if let Ok(mut g) = slot.current.lock() {
                 g.clear();
                 g.extend_from_slice(&bytes);
@@ -306,6 +308,7 @@ fn shard(
 fn minimise(engine: &dyn Engine, prop: &str, mut bytes: Vec<u8>, slot: &Slot) -> Vec<u8> {
     let fails = |b: &[u8]| {
         slot.beat.fetch_add(1, Ordering::Relaxed);
+        crate::crash::publish(b);
         engine.eval(b, false).violations.iter().any(|v| v.oracle.property() == prop)
     };
     let mut budget = 4000;
